@@ -623,3 +623,56 @@ func detaches(g *ssa.Function) bool {
 	}
 	return n > 0
 }
+
+func init() { register("C05.h", ruleC05h) }
+
+// Rule C05.h — which method renders a value is fmt's choice, made in one place.
+//
+// fmt decides between Formatter, error, Stringer, GoStringer and reflection
+// by verb, flags and precedence (a Formatter wins over a Stringer, %#v asks
+// GoStringer, a reflect.Value is unpacked first). The fork inherits that
+// decision in handleMethods. Hand-written code that calls one of these
+// methods on an interface value itself — a "fast path" that returns
+// x.String() or err.Error() for a value it was handed — makes the decision a
+// second time, differently: the text of a declared-safe value is then not what
+// fmt prints. Every dynamic call of Error/String/GoString/Format/SafeFormat in
+// the module must be in the imported dispatcher (print.go/format.go), or on a
+// value of the module's own redact types, or listed here with its reason.
+func ruleC05h(c *Ctx) []*report.Result {
+	r := report.NewResult("C05.h", "the choice of the method that renders an operand (Format, Error, String, GoString) is made only by fmt's dispatcher: outside the imported print.go/format.go no code of the module calls one of these methods dynamically on an interface value it was handed (it prints the value through the printer or through fmt instead), except at the listed sites", 1)
+	methods := map[string]bool{"Error": true, "String": true, "GoString": true, "Format": true}
+	allowed := map[string]string{
+		// function -> reason
+	}
+	n := 0
+	for _, fn := range c.P.ModuleFunctions() {
+		if fn.Blocks == nil {
+			continue
+		}
+		imported := !handWritten(c, fn)
+		for _, b := range fn.Blocks {
+			for _, ins := range b.Instrs {
+				ci, ok := ins.(ssa.CallInstruction)
+				if !ok || !ci.Common().IsInvoke() {
+					continue
+				}
+				m := ci.Common().Method
+				if m == nil || !methods[m.Name()] {
+					continue
+				}
+				n++
+				construct := shortFn(fn.String()) + " / dynamic " + m.Name() + "() on " + ci.Common().Value.Type().String()
+				switch {
+				case imported:
+					r.Ok(construct + ": fmt's dispatcher")
+				case allowed[shortFn(fn.String())] != "":
+					r.Ok(construct + ": " + allowed[shortFn(fn.String())])
+				default:
+					r.Fail(construct, c.P.Pos(ins.Pos()), "hand-written code picks the rendering method itself: fmt may choose another one for the same value (Formatter before Stringer, GoStringer under %#v, a reflect.Value unpacked first), so the text differs from what fmt prints", nil, "")
+				}
+			}
+		}
+	}
+	r.Note(fmt.Sprintf("%d dynamic calls of a rendering method examined", n))
+	return []*report.Result{r}
+}
